@@ -119,6 +119,7 @@ func (ex *Exec) RunPath(entry *ssa.Function, entryName string, prefix []int32, s
 		ex.live = true
 	}
 	ex.prevValid = false
+	ex.installInitSnapshot(entry)
 	defer func() {
 		if r := recover(); r != nil {
 			switch a := r.(type) {
@@ -679,4 +680,53 @@ func (r *RegionExpr) Eval(entry string, draws map[string]uint64) (bool, bool) {
 	}
 	v := ev(r.root)
 	return v != 0, ok
+}
+
+// installInitSnapshot starts the path from a deep copy of the post-initialisation
+// state (package initialisers run once per worker); on any difficulty it falls back
+// to lazy per-path initialisation.
+func (ex *Exec) installInitSnapshot(entry *ssa.Function) {
+	if ex.snapOff || entry.Pkg == nil {
+		return
+	}
+	if ex.master == nil {
+		ok := func() (ok bool) {
+			defer func() {
+				if r := recover(); r != nil {
+					ok = false
+					ex.snapWhy = fmt.Sprint(r)
+				}
+			}()
+			ex.ensureInit(entry.Pkg)
+			return true
+		}()
+		held := 0
+		for _, m := range ex.mutexes {
+			held += m.w + m.r
+		}
+		if !ok || len(ex.sidecar) != 0 || held != 0 || len(ex.gos) != 0 || len(ex.pc) != 0 {
+			// initialisation is not a pure concrete prefix: do not snapshot
+			ex.snapOff = true
+			if os.Getenv("GOSYM_INITTRACE") != "" {
+				fmt.Fprintf(os.Stderr, "snapshot off: ok=%v why=%s sidecar=%d mutexes=%d gos=%d pc=%d\n", ok, ex.snapWhy, len(ex.sidecar), len(ex.mutexes), len(ex.gos), len(ex.pc))
+			}
+			ex.resetPath(ex.prefix)
+			return
+		}
+		ex.mutexes = map[*Value]*mutexState{}
+		ex.master = &initSnapshot{globals: ex.globals, inited: ex.inited, uninit: ex.uninit, onces: ex.onces, pools: ex.pools, steps: ex.steps}
+		ex.globals, ex.inited, ex.uninit, ex.onces, ex.pools = map[*ssa.Global]*Value{}, map[*ssa.Package]bool{}, map[string]bool{}, map[*Value]bool{}, map[*Value][]Value{}
+		ex.steps = 0
+	}
+	cl, ok, why := cloneSnapshot(ex.master, ex.tb)
+	if !ok {
+		ex.snapOff = true
+		ex.snapWhy = why
+		ex.master = nil
+		if os.Getenv("GOSYM_INITTRACE") != "" {
+			fmt.Fprintf(os.Stderr, "snapshot clone failed: %s\n", why)
+		}
+		return
+	}
+	ex.globals, ex.inited, ex.uninit, ex.onces, ex.pools = cl.globals, cl.inited, cl.uninit, cl.onces, cl.pools
 }
